@@ -149,7 +149,11 @@ def run(rep, facts):
                 if cv(v) == 0:
                     okv = True
                 w = dispatch.wire_field(v)
-                if w == ("content_length" if kind == "payload" else "padding_length"):
+                want_w = "content_length" if kind == "payload" else "padding_length"
+                if w == want_w:
+                    okv = True
+                # the same field of a decoded header handed to a helper as a parameter
+                if v[0] == 'field' and str(v[2]) == want_w and ir.peel(v[1])[0] == 'param':
                     okv = True
                 b2 = v
                 if b2[0] == 'field' and str(b2[2]) == '0' and ir.peel(b2[1])[0] == 'bin':
@@ -173,7 +177,8 @@ def run(rep, facts):
                     continue
                 n_w += 1
                 v = ir.peel(r.operand(f[fld], (bi, si)))
-                okv = cv(v) == 0 or dispatch.wire_field(v) == wirename or (v[0] == 'param' and v[2] == fld)
+                okv = cv(v) == 0 or dispatch.wire_field(v) == wirename or (v[0] == 'param' and v[2] == fld) \
+                    or (v[0] == 'field' and str(v[2]) == wirename and ir.peel(v[1])[0] == 'param')
                 if not okv:
                     bad.append((b.npath, fld, ir.show(v)[:70], "%s:%d" % (st["sp"]["f"], st["sp"]["l"])))
     if bad:
